@@ -201,41 +201,125 @@ def ray_entries(T):
 
 
 # ---- refract: prologue / Newton step / epilogue
+def _stores(stmts):
+    out = []
+    for st in stmts:
+        for n in ast.walk(st):
+            if isinstance(n, ast.Name) and isinstance(n.ctx, ast.Store) and n.id not in out: out.append(n.id)
+    return out
+
+
+def _loads(stmts):
+    out = []
+    for st in stmts:
+        for n in ast.walk(st):
+            if isinstance(n, ast.Name) and isinstance(n.ctx, ast.Load) and n.id not in out: out.append(n.id)
+    return out
+
+
+def _live_in(stmts):
+    """names a straight-line block reads before it assigns them"""
+    out, done = [], set()
+    for st in stmts:
+        for n in _loads([st]):
+            if n not in done and n not in out: out.append(n)
+        done |= set(_stores([st]))
+    return out
+
+
+def _is_exit_test(st):
+    """`if <test>: break` (the loop's exit condition written inside the body)"""
+    return isinstance(st, ast.If) and not st.orelse and len(st.body) == 1 and isinstance(st.body[0], ast.Break)
+
+
+def _is_where_keep(st):
+    """`X = torch.where(<cond>, <fill>, X)`: keeps X wherever the condition is false"""
+    return (isinstance(st, ast.Assign) and len(st.targets) == 1 and isinstance(st.targets[0], ast.Name) and isinstance(st.value, ast.Call)
+            and isinstance(st.value.func, ast.Attribute) and st.value.func.attr == 'where' and len(st.value.args) == 3
+            and isinstance(st.value.args[2], ast.Name) and st.value.args[2].id == st.targets[0].id)
+
+
 class RefractPieces:
+    """`refract` iterates on its data.  Its CURRENT source must have the shape
+         prologue;  LOOP;  epilogue;  return
+    where LOOP is either `while <cond>: <step>` or `for <i> in range(...): ... if <converged>: break ...` (the only loop of the
+    function that can stop on its data).  The loop CONTROL -- the loop variable / iteration counter, the step-size variable `eps`
+    that only the exit condition reads, the exit test itself, and after the loop the statements that turn unconverged entries
+    into NaN (`X = torch.where(<control>, nan, X)`) -- is cut away; what remains is traced as three straight-line pieces and the
+    step is unrolled k times.  Anything else (several data-dependent loops, break / continue elsewhere, try, nested defs,
+    several returns) is refused: fail closed.  That the pieces composed k times reproduce the real function at the sampled points
+    is checked by the harness (value match), which also finds k."""
+    CONTROL = ('num', 'eps')
+
     def __init__(s):
-        path = os.path.join(shim.REPO, 'odak/learn/raytracing/boundary.py')
+        rel = 'odak/learn/raytracing/boundary.py'
+        path = os.path.join(shim.REPO, rel)
         src = open(path).read()
         fn = [x for x in ast.parse(src).body if isinstance(x, ast.FunctionDef) and x.name == 'refract'][0]
         body = [st for st in fn.body if not (isinstance(st, ast.Expr) and isinstance(getattr(st, 'value', None), ast.Constant))]
-        loops = [i for i, st in enumerate(body) if isinstance(st, ast.While)]
-        if len(loops) != 1 or body[loops[0]].orelse or not isinstance(body[-1], ast.Return):
-            raise shim.TraceError('refract no longer has the shape `prologue; while ...: step; epilogue; return`')
-        k = loops[0]
-        s.params = [a.arg for a in fn.args.args]
+        cands = [i for i, st in enumerate(body) if isinstance(st, ast.While) or (isinstance(st, ast.For) and any(isinstance(x, ast.Break) for x in ast.walk(st)))]
+        rets = [x for x in ast.walk(fn) if isinstance(x, ast.Return)]
+        bad = [x for x in ast.walk(fn) if isinstance(x, (ast.Continue, ast.Try, ast.With, ast.Raise, ast.Yield, ast.Lambda, ast.FunctionDef, ast.Global, ast.Nonlocal)) and x is not fn]
+        if len(cands) != 1 or bad or len(rets) != 1 or body[-1] is not rets[0]:
+            raise shim.TraceError('refract no longer has the shape `prologue; while / for-break loop; epilogue; return`')
+        k = cands[0]
         loop = body[k]
-        control = ('num', 'eps')
-        pre = [st for st in body[:k] if not (isinstance(st, ast.Assign) and len(st.targets) == 1 and isinstance(st.targets[0], ast.Name) and st.targets[0].id in control)]
-        step = [st for st in loop.body if not (isinstance(st, (ast.Assign, ast.AugAssign)) and isinstance(getattr(st, 'targets', [getattr(st, 'target', None)])[0], ast.Name)
-                                               and getattr(st, 'targets', [getattr(st, 'target', None)])[0].id in control)]
-        post = [st for st in body[k + 1:] if not _mentions(st, control)]
-        s.dropped_post = [ast.get_source_segment(src, st) for st in body[k + 1:] if _mentions(st, control)]
-        state = ['mu', 'div', 'a', 'b', 'to']
+        if loop.orelse or any(isinstance(x, (ast.While, ast.For)) for st in loop.body for x in ast.walk(st)):
+            raise shim.TraceError('refract: loop with an else clause or a nested loop')
+        control = set(s.CONTROL)
+        if isinstance(loop, ast.For):
+            if not (isinstance(loop.target, ast.Name) and isinstance(loop.iter, ast.Call) and isinstance(loop.iter.func, ast.Name) and loop.iter.func.id == 'range'):
+                raise shim.TraceError('refract: the for loop is not `for <name> in range(...)`')
+            control.add(loop.target.id)
+        breaks = [x for st in loop.body for x in ast.walk(st) if isinstance(x, ast.Break)]
+        exits = [st for st in loop.body if _is_exit_test(st)]
+        if len(breaks) != len(exits) or (isinstance(loop, ast.For) and not exits):
+            raise shim.TraceError('refract: a break that is not a top-level `if <test>: break` of the loop')
+        s.params = [a.arg for a in fn.args.args]
+
+        def is_control_assign(st):
+            tg = _stores([st])
+            return isinstance(st, (ast.Assign, ast.AugAssign)) and tg and all(t in control for t in tg)
+        pre = [st for st in body[:k] if not is_control_assign(st)]
+        step = [st for st in loop.body if not is_control_assign(st) and not _is_exit_test(st)]
+        if any(n in control for n in _loads(step)):
+            raise shim.TraceError('refract: the Newton step reads a loop-control variable')
+        # after the loop: statements that read the control are cut; names they define become control as well, except through
+        # `X = torch.where(<control>, nan, X)`, which leaves X as it is wherever the iteration converged
+        post, s.dropped_post = [], []
+        for st in body[k + 1:]:
+            if any(n in control for n in _loads([st])):
+                s.dropped_post.append(ast.get_source_segment(src, st))
+                if not _is_where_keep(st): control |= set(_stores([st]))
+            else:
+                post.append(st)
         s.ns = namespace()
         s.ns['len'] = shim.sym_len
-        _mkfn('rf_pre', s.params, pre + [_ret(state)], s.ns, path)
-        _mkfn('rf_step', ['to', 'a', 'b', 'div'], step + [_ret(['to'])], s.ns, path)
-        _mkfn('rf_post', ['to', 'vector', 'normvector', 'mu'], post, s.ns, path)
+        shim.load(rel, [], s.ns)                              # module-level helpers the pieces may call
+        known = set(s.params) | set(_stores(pre)) | set(_stores(step))
+        s.pre_out = _stores(pre)
+        s.step_in = [n for n in _live_in(step) if n in known]
+        s.step_out = _stores(step)
+        s.post_in = [n for n in _live_in(post) if n in known]
+        _mkfn('rf_pre', s.params, pre + [_ret(s.pre_out)], s.ns, path)
+        _mkfn('rf_step', s.step_in, step + [_ret(s.step_out)], s.ns, path)
+        _mkfn('rf_post', s.post_in, post, s.ns, path)
+        s.loop_kind = type(loop).__name__
 
     def outputs(s, v, n, n1, n2, steps):
-        kw = {}
         args = {'vector': v, 'normvector': n, 'n1': n1, 'n2': n2}
-        call = [args.get(p, None) for p in s.params]
         # remaining parameters (error, max_iterations, ...) keep a harmless constant: they only steer the loop
-        call = [c if c is not None else 0.01 for c in call]
-        mu, div, a, b, to = s.ns['rf_pre'](*call)
+        st = {p: (args[p] if p in args else 1000 if 'iter' in p else 0.01) for p in s.params}
+        vals = s.ns['rf_pre'](*[st[p] for p in s.params])
+        # the prologue may rebind its parameters (e.g. vector = vector.unsqueeze(0))
+        st.update(dict(zip(s.pre_out, vals)))
         for _ in range(steps):
-            (to,) = s.ns['rf_step'](to, a, b, div)
-        return s.ns['rf_post'](to, v.unsqueeze(0) if v.ndim == 2 else v, n.unsqueeze(0) if n.ndim == 2 else n, mu)
+            missing = [x for x in s.step_in if x not in st]
+            if missing: raise shim.TraceError('refract: the Newton step reads %s before it is defined' % missing)
+            st.update(dict(zip(s.step_out, s.ns['rf_step'](*[st[x] for x in s.step_in]))))
+        missing = [x for x in s.post_in if x not in st]
+        if missing: raise shim.TraceError('refract: the epilogue reads %s, which only the cut loop control defines' % missing)
+        return s.ns['rf_post'](*[st[x] for x in s.post_in])
 
 
 def _mentions(st, names):
@@ -269,7 +353,7 @@ def refract_entries(T):
         out.append(Entry('refract_k%d' % k, 'refract', [('v', (1, 2, 3)), ('n', (1, 2, 3))], flat(o),
                          lambda p: lr.refract(p['v'], p['n'], float(REFRACT_N[0]), float(REFRACT_N[1])).reshape(-1),
                          nonsmooth=['total internal reflection boundary', 'zero normal', 'grazing incidence (a = 0)', 'inputs where the iteration count changes'],
-                         note='Newton step unrolled %d times; dropped loop-control statements after the loop: %s' % (k, pieces.dropped_post),
+                         note='Newton step unrolled %d times (%s loop); loop-control statements cut after the loop: %s' % (k, pieces.loop_kind, pieces.dropped_post),
                          source='odak/learn/raytracing/boundary.py:refract'))
     return out
 
